@@ -17,5 +17,11 @@ SPEC = {
             {'fn': 'harness_realloc_%s' % k, 'unwind': 32, 'timeout': 5400, 'tier': 'thorough', 'optional_witness': ['exit path'], 'bounds': 'realloc %s; contents and failure of the underlying realloc symbolic' % d} for k, d in (('grow', '2 -> 4 bytes, inline record'), ('shrink', '4 -> 1 bytes, inline record'), ('grow_sep', '2 -> 4 bytes, separate record'), ('zero', '3 -> 0 bytes, inline record'))] + [
             {'fn': 'finding_failed_realloc_untracks', 'unwind': 32, 'timeout': 900, 'expect': 'fail', 'optional_witness': ['exit path'], 'bounds': 'alloc 4; realloc to 8 with a failing underlying realloc'},
         ],
+    }, {
+        # calloc's count x size arithmetic (the harness is shared with check C15, which owns allocation failure):
+        # element sizes just above 2^64/k make overflowing products wrap to a SMALL number >= count
+        'name': 'calloc', 'wrapper': '../C15/w15.cpp', 'harness': '../C15/h15s.c',
+        'config': {'memleak': False, 'empty_regex': ['^_ZN[0-9]+[A-Za-z]*FailureC[12]E', '^_ZN10UtestShell5printEPKcS1_m$']},
+        'obligations': [{'fn': 'harness_calloc_oom_%s' % k, 'unwind': 18, 'timeout': 600, 'bounds': 'calloc(num, %s): num any 64-bit value whose product with the element size, modulo 2^64, is <= 16 (products that overflow and wrap to a small number included); allocation failure symbolic' % d} for k, d in (('q62', '2^62+1'), ('q60', '2^60+1'), ('max', 'SIZE_MAX'))],
     }],
 }
